@@ -9,5 +9,6 @@ int vf_lock_depth(void *mutex);           /* calling thread's depth on that mute
 void vf_lock_depth_reset(void *mutex);
 extern void (*volatile vf_sched_point)(int point, void *mutex);
 extern volatile int vf_usleep_fast;
+extern volatile int vf_spin_abort;
 extern volatile long vf_trylock_calls, vf_trylock_busy, vf_unlock_calls, vf_usleep_calls;
 #endif
